@@ -115,6 +115,11 @@ def examine(c, i, al_rc):
             flat = [f for l in lists for f in l]
             if len(set(flat)) != len(flat):
                 key = 'C08:dup-shared-callable'
+            elif c.op == 'merge' and len(ins) >= 4 and any(
+                    Merge(ins[:k]).impl() == ('err', 'ValueError') for k in range(2, len(ins))):
+                # known finding (delimited class): a merge of four or more signatures folds through an
+                # intermediate accumulator that is not a valid signature (a proper prefix does not merge)
+                key = 'C08:nary-merge-duplicate'
         out.append((key, what))
     exp = expected_depths(c)
     if exp is not None and r['deps'] != exp:
@@ -172,7 +177,7 @@ def gen(ctx):
             base = random_sig(rng, 'abcde', 5)
             cases.append(Merge([mk_desc(mutate(rng, base), 100 + j) for j in range(rng.choice([2, 3]))]))
         elif k < 0.35:
-            cases.append(Merge([mk_desc(rng.choice(U3), 100 + j) for j in range(rng.choice([2, 3]))]))
+            cases.append(Merge([mk_desc(rng.choice(U3), 100 + j) for j in range(rng.choice([2, 3, 3, 4]))]))
         elif k < 0.6:
             inner = rng.choice(U2cd)
             if rng.random() < 0.15:
